@@ -1978,7 +1978,8 @@ class Interp:
                 continue
             seq = self.as_sequence(it, node)
             n = self.seq_len(seq)
-            if lc is not None and not self.ctx.concrete_math:
+            if lc is not None and not self.ctx.concrete_math and not self.force_unroll and \
+                    (is_sym(n) or n > self.max_unroll):
                 from .loops import cut_for
                 yield from cut_for(self, node, s, lc, seq, n)
                 continue
